@@ -1543,8 +1543,12 @@ func main() {
 	var outs []string
 	c.outcomes.Range(func(k, v interface{}) bool { outs = append(outs, k.(string)); return true })
 	sort.Strings(outs)
+	// part (iv): concurrent digest requests on one shared Tx object, explored by the
+	// controlled scheduler in its own (instrumented) binary
+	concurrent := r.RunSub("c02s", "concurrent")
 	r.Finish(map[string]interface{}{
 		"evaluations":                   c.evals,
+		"concurrent_part":               concurrent,
 		"per_family":                    per,
 		"distinct_nontrivial":           len(outs),
 		"rule":                          "distinct (family, digest class / hash-type class / path / annex / verdict) outcome classes observed; every evaluation compares the implementation's digest (or verdict) with the reference on a transaction whose committed fields all differ between inputs/outputs",
@@ -1563,6 +1567,6 @@ func main() {
 		"refhash (original algorithm transcribed from Core's CTransactionSignatureSerializer incl. its handling of unparsable script code, BIP143 and BIP341/342 from the BIP texts) is the oracle; it reproduces all rows of sighash.json",
 		"signatures are made by refsig (RFC6979 ECDSA, BIP340) - verdict expectations rest on 'a valid signature over exactly the specified digest verifies, any other digest does not'",
 		"the legacy digest for nIn >= len(vin) is unreachable through the interpreter and not enumerated",
-		"concurrent digest requests (part iv) are explored by the scheduler check, not here",
+		"concurrent digest requests (part iv): sub-check c02s under the controlled scheduler (complete at synchronisation granularity) plus a free-running race-detector pass; its coverage is embedded as concurrent_part",
 	})
 }
